@@ -145,6 +145,51 @@ func addSync(m map[string]extFn) {
 		return nil
 	}
 
+	// sync.Map (sequential semantics; keys must be concrete, insertion ordered)
+	smap := func(ex *Exec, a []value) *syncMapModel {
+		p := a[0].(*value)
+		m := ex.syncMaps[p]
+		if m == nil {
+			m = &syncMapModel{index: map[interface{}]int{}}
+			ex.syncMaps[p] = m
+		}
+		return m
+	}
+	skey := func(v value) interface{} {
+		k, ok := hostKey(v)
+		if !ok {
+			panic(unsupported("sync.Map with a symbolic key"))
+		}
+		return k
+	}
+	m["(*sync.Map).Load"] = func(ex *Exec, fr *frame, a []value) value {
+		sm := smap(ex, a)
+		if i, ok := sm.index[skey(a[1])]; ok && !sm.dead[i] {
+			return tuple{sm.vals[i], true}
+		}
+		return tuple{iface{}, false}
+	}
+	m["(*sync.Map).Store"] = func(ex *Exec, fr *frame, a []value) value {
+		sm := smap(ex, a)
+		sm.store(skey(a[1]), a[1], a[2])
+		return nil
+	}
+	m["(*sync.Map).LoadOrStore"] = func(ex *Exec, fr *frame, a []value) value {
+		sm := smap(ex, a)
+		if i, ok := sm.index[skey(a[1])]; ok && !sm.dead[i] {
+			return tuple{sm.vals[i], true}
+		}
+		sm.store(skey(a[1]), a[1], a[2])
+		return tuple{a[2], false}
+	}
+	m["(*sync.Map).Delete"] = func(ex *Exec, fr *frame, a []value) value {
+		sm := smap(ex, a)
+		if i, ok := sm.index[skey(a[1])]; ok {
+			sm.dead[i] = true
+		}
+		return nil
+	}
+
 	// sync/atomic functions (sequential semantics)
 	for _, ty := range []string{"Int32", "Int64", "Uint32", "Uint64", "Uintptr"} {
 		w := 64
@@ -188,4 +233,23 @@ func isNilFunc(v value) bool {
 	default:
 		return isNilSSAFunc(v)
 	}
+}
+
+// syncMapModel is the sequential model of one sync.Map.
+type syncMapModel struct {
+	index map[interface{}]int
+	keys  []value
+	vals  []value
+	dead  []bool
+}
+
+func (m *syncMapModel) store(hk interface{}, k, v value) {
+	if i, ok := m.index[hk]; ok {
+		m.vals[i], m.dead[i] = v, false
+		return
+	}
+	m.index[hk] = len(m.keys)
+	m.keys = append(m.keys, k)
+	m.vals = append(m.vals, v)
+	m.dead = append(m.dead, false)
 }
